@@ -461,7 +461,11 @@ def run(ctx):
                                             (a_[0] == 'call' and a_[1] == 'std::iter::Iterator::max') for a_ in ids)
             ctx.inst('Q1', 'validate_tile_ids#refusal', okr, 'validate_tile_ids refuses under %s; must be `a tile id of the map >= tile_count` and nothing else '
                      '(no default standing in for "no tile")' % show(cond)[:100], vt.blocks[sw]['term'].get('span'), key=vt.name + '|Q1|refusal')
-        ctx.floor('refusals in validate_tile_ids', nrej, 1)
+        if nrej == 0:
+            # written with find / any / position / max: the predicate `id >= tile_count` over every tile is what I3 establishes
+            import invariants as _inv3
+            ok3, why3 = _inv3.Inv(ctx).get("I3")
+            ctx.inst('Q1', 'validate_tile_ids#refusal', ok3, 'validate_tile_ids (iterator form): %s' % why3, vt.span, key=vt.name + '|Q1|refusal')
     # the tileset chunk itself: tile count, tile size and the embedded pixels are read where the format puts them - also when the chunk
     # additionally links an external file (seed C08-j skipped the embedded tiles then and the sprite no longer loads)
     import spec as _SP
